@@ -1,2 +1,2 @@
 from checks._base import setup
-setup(globals(), "C05")
+setup(globals(), "C06")
